@@ -575,7 +575,7 @@ fn boundaries(text: &str, toks: &[Tok], known_fn_macros: &[String]) -> Vec<Bound
         );
         if dir {
             let d = dir_name[b - 1].clone().unwrap_or_default();
-            ctx.push_str(&format!(" dir:{}", d));
+            ctx.push_str(&format!(" dir:{}", if d.is_empty() { "(before-name)" } else { d.as_str() }));
         }
         if call_gap[b] {
             ctx.push_str(" macro-call-gap");
